@@ -82,6 +82,16 @@ def covered : Op → Bool
   | .agg i => covered i && linear i && !hasLimit i
   | .union a b => covered a && covered b
 
+/-- `FilterExec` AS CODED (`FilterExecStream::poll_next`, filter.rs): filtered rows go through a
+    `LimitedBatchCoalescer`; only COMPLETED batches of `bs = batch_size` rows leave the operator,
+    and nothing is flushed when the input merely has nothing new (`Pending`).  So after the input
+    prefix `xs` — arriving ONE ROW PER BATCH, which is how the correspondence feeds it; arrow's
+    coalescer lets input batches of more than `bs / 2` rows through unmerged — the operator has
+    handed on the largest multiple of `bs` of the passing rows. -/
+def filterDelivered (bs : Nat) (lo : Int) (xs : List Row) : List Row :=
+  let o := out (.filter lo .source) xs
+  o.take (bs * (o.length / bs))
+
 /-! ## Part B — boundedness / emission algebra -/
 
 inductive Bnd where
